@@ -597,7 +597,13 @@ static void runScenario(const Scenario& sc, uint64_t idx)
             f << content;
             createdFiles.push_back(p);
          }
-         else if (c == "E") { string n = unhexf(t[1]); setenv(n.c_str(), unhexf(t.size() > 2 ? t[2] : "-").c_str(), 1); setEnvs.push_back(n); }
+         else if (c == "E")
+         {
+            string n = unhexf(t[1]), v = unhexf(t.size() > 2 ? t[2] : "-");
+            for (auto hp = v.find("@HOME@"); hp != string::npos; hp = v.find("@HOME@", hp)) v.replace(hp, 6, homeDir);
+            setenv(n.c_str(), v.c_str(), 1);
+            setEnvs.push_back(n);
+         }
          else if (c == "AF") { if (!cur) { single.reset(new Handler(out, err, 0)); cur = single.get(); } cur->addArgumentFile(unhexf(t[1])); }
          else if (c == "V")
          {
